@@ -7,7 +7,7 @@ Calls are resolved through the spec's maps (regex on a textual key -> C stub / t
 """
 import re
 
-from astload import ExtractionError
+from astload import ExtractionError, node_text
 
 
 class Unsupported(ExtractionError):
@@ -340,6 +340,12 @@ class Printer:
         objt = strip_cv(qual(obj['type']))
         lit = string_literal_of(inner[1]) if len(inner) > 1 else None
         key = f'{name}|{objt}' + (f'|"{lit}"' if lit is not None else '')
+        # explicit template arguments as spelled at the call (values.size<0>()): appended as '|<0>' so that a spec can
+        # tell the specialisations of one member template apart (the AST names only the member)
+        txt = node_text(me)
+        tm = re.search(r'\b' + re.escape(name) + r'\s*(<[^<>;(){}]*>)\s*$', txt) if txt else None
+        if tm:
+            key += '|' + re.sub(r'\s+', '', tm.group(1))
         m = self.lookup(self.members, key)
         if m is None:
             raise Unsupported(f'member call not mapped: {key}')
